@@ -83,134 +83,694 @@ pub fn ref_head(g: &[Ghost], topic: &str, ctx: Scru128Id) -> Option<Scru128Id> {
 
 
 // ---------------------------------------------------------------------------------------
-// Concrete adversarial base states (built through the REAL append / insert_frame), against
-// which ONE symbolic element (query, frame, id, GC task, clock ...) is quantified by the
-// solver. Fully symbolic multi-frame states do not get through CBMC (probes: 2 symbolic
-// frames + head = >8 min / OOM); pairwise byte-level interplay of two symbolic topics /
-// contexts is covered by the K lemmas (k_prefix_exact, k_ctx_range, k_key_order).
+// Symbolic reachable state: three frames with fully symbolic context ids, ids (ordered,
+// distinct) and topic bytes (every NUL-free UTF-8 string of L bytes), imported through the
+// real insert_frame. Frames live in a stack array, never on the heap (see env::pool).
 // ---------------------------------------------------------------------------------------
 pub const TS: u128 = 1u128 << 80; // one millisecond in the id's timestamp field
-/// two registered contexts with numerically ADJACENT ids
-pub const CA: u128 = 1000 * TS + 7;
-pub const CB: u128 = CA + 1;
-pub const I3: u128 = 1001 * TS;
-pub const I4: u128 = 1002 * TS;
-pub const I5: u128 = 1003 * TS;
-pub const I6: u128 = 1004 * TS;
-pub const I7: u128 = 1005 * TS;
 
 pub fn sid(v: u128) -> Scru128Id {
     Scru128Id::from_u128(v)
 }
 
-/// append through the real `Store::append` with a chosen id (the id generator is environment)
-pub fn append_with_id(sut: &Sut, topic: &str, ctx: u128, id: u128, ttl: Option<TTL>) -> Frame {
-    env::scru::force_next(id);
-    let r = sut.store.append(Frame {
-        topic: topic.to_string(),
-        context_id: sid(ctx),
-        id: sid(0),
-        hash: None,
-        meta: None,
-        ttl,
-    });
-    match r {
-        Ok(f) => f,
-        Err(_) => {
-            nd::assume(false);
-            unreachable!()
-        }
+pub fn sym_ttl_time() -> Option<TTL> {
+    if nd::any_bool() {
+        Some(TTL::Time(Duration::from_millis(nd::any_u64())))
+    } else {
+        None
     }
 }
 
-/// S1: contexts 0, CA, CB=CA+1; prefix-related topics; same topic in three contexts;
-/// two frames of one (context, topic). Returns the ghost list (what must be stored).
-pub fn base_s1(sut: &Sut) -> Vec<Ghost> {
-    let mut g = Vec::with_capacity(8);
-    g.push(Ghost { f: append_with_id(sut, "xs.context", 0, CA, None), present: true });
-    g.push(Ghost { f: append_with_id(sut, "xs.context", 0, CB, None), present: true });
-    g.push(Ghost { f: append_with_id(sut, "a", 0, I3, None), present: true });
-    g.push(Ghost { f: append_with_id(sut, "ab", CA, I4, None), present: true });
-    g.push(Ghost { f: append_with_id(sut, "a", CA, I5, None), present: true });
-    g.push(Ghost { f: append_with_id(sut, "a", CB, I6, None), present: true });
-    g.push(Ghost { f: append_with_id(sut, "a", CA, I7, None), present: true });
-    env::trace::reset();
-    g
+pub fn sym_state<const L: usize>(with_ttl: bool) -> [Ghost; 3] {
+    let id0 = nd::any_u128();
+    let id1 = nd::any_u128();
+    let id2 = nd::any_u128();
+    nd::assume(id0 < id1 && id1 < id2);
+    [
+        Ghost { f: mk_frame(topic::<L>(), nd::any_u128(), id0, if with_ttl { sym_ttl_time() } else { None }), present: true },
+        Ghost { f: mk_frame(topic::<L>(), nd::any_u128(), id1, if with_ttl { sym_ttl_time() } else { None }), present: true },
+        Ghost { f: mk_frame(topic::<L>(), nd::any_u128(), id2, if with_ttl { sym_ttl_time() } else { None }), present: true },
+    ]
 }
 
-/// C05/C06: symbolic query (every NUL-free UTF-8 topic of Q bytes, every context id)
-/// against S1: head is the newest frame of exactly that topic in exactly that context.
-pub fn o_head_q<const Q: usize>() {
+/// pull at most N items out of a real iterator into a fixed array of ids
+pub fn take_ids<const N: usize>(it: &mut dyn Iterator<Item = Frame>) -> ([u128; N], usize, bool) {
+    let mut out = [0u128; N];
+    let mut n = 0;
+    let mut more = false;
+    let mut i = 0;
+    while i <= N {
+        match it.next() {
+            Some(f) => {
+                if i < N {
+                    out[i] = f.id.to_u128();
+                    n += 1;
+                } else {
+                    more = true;
+                }
+                core::mem::forget(f);
+            }
+            None => {
+                i = N; // stop
+            }
+        }
+        i += 1;
+    }
+    (out, n, more)
+}
+
+fn topic_eq(a: &str, b: &str) -> bool {
+    a.as_bytes() == b.as_bytes()
+}
+
+/// install the first N ghosts of a symbolic state (LIMIT/JLIMIT follow N + `extra` later writes)
+pub fn setup<const L: usize, const N: usize>(with_ttl: bool, extra: usize) -> (Sut, [Ghost; 3]) {
     env::reset_all();
-    env::fjall::set_limit(7);
+    env::fjall::set_limit(N + extra);
     let sut = mk_store(2);
-    let g = base_s1(&sut);
+    let mut g = sym_state::<L>(with_ttl);
+    let mut i = 0;
+    while i < 3 {
+        if i >= N {
+            g[i].present = false;
+        }
+        i += 1;
+    }
+    let mut i = 0;
+    while i < N {
+        if sut.store.insert_frame(&g[i].f).is_err() {
+            nd::assume(false);
+        }
+        i += 1;
+    }
+    env::trace::reset();
+    (sut, g)
+}
+
+/// C05/C06: head(topic, ctx) == newest frame of exactly that topic in exactly that context, over
+/// a fully symbolic N-frame state (stored topics L bytes, query topic Q bytes: Q != L exercises
+/// prefix-related topics in both directions).
+pub fn o_head<const L: usize, const Q: usize, const N: usize>() {
+    let (sut, g) = setup::<L, N>(false, 0);
     let qt = topic::<Q>();
     let qc = sid(nd::any_u128());
     let got = sut.store.head(&qt, qc).map(|f| f.id);
     let want = ref_head(&g, &qt, qc);
     hx_check!(got == want, "C05 head(topic, ctx) is the newest frame of exactly that topic in that context");
-    if Q == 1 {
-        hx_cover!(want == Some(sid(I7)), "head is the newer of two frames of (CA, a)");
-        hx_cover!(want == Some(sid(I6)), "head of the adjacent context CB");
-    }
-    if Q == 2 {
-        hx_cover!(want == Some(sid(I4)), "head of the longer prefix-related topic");
-    }
-    hx_cover!(want.is_none() && qc == sid(CA), "no such topic in a context that has frames");
+    hx_cover!(
+        (L == Q && want == Some(g[N - 2].f.id)) || (L != Q && want.is_none() && g[0].f.context_id == qc),
+        "equal lengths: head is an older frame (the newest differs in topic or context); different lengths: no head although the context holds a prefix-related topic"
+    );
     core::mem::forget(sut);
     core::mem::forget(g);
 }
 
-/// C05/C06: head(topic, ctx) == newest frame of exactly that topic in exactly that context.
-/// Three stored frames with topic lengths (A,B,C), query topic length Q; contexts and ids
-/// fully symbolic (so equal / adjacent / zero contexts and prefix-related topics all occur).
-pub fn o_head<const A: usize, const B: usize, const C: usize, const Q: usize>() {
-    env::reset_all();
-    env::fjall::set_limit(3);
-    let sut = mk_store(2);
-    let id0 = nd::any_u128();
-    let id1 = nd::any_u128();
-    let id2 = nd::any_u128();
-    nd::assume(id0 < id1 && id1 < id2);
-    let c0 = nd::any_u128();
-    let c1 = nd::any_u128();
-    let c2 = nd::any_u128();
-    let g = [
-        Ghost { f: mk_frame(topic::<A>(), c0, id0, None), present: true },
-        Ghost { f: mk_frame(topic::<B>(), c1, id1, None), present: nd::any_bool() },
-        Ghost { f: mk_frame(topic::<C>(), c2, id2, None), present: nd::any_bool() },
-    ];
-    install(&sut, &g);
-    let qt = topic::<Q>();
-    let qc = Scru128Id::from_u128(nd::any_u128());
-    let got = sut.store.head(&qt, qc).map(|f| f.id);
-    let want = ref_head(&g, &qt, qc);
-    hx_check!(got == want, "C05 head(topic, ctx) is the newest frame of exactly that topic in that context");
-    hx_cover!(want.is_some() && want != Some(g[2].f.id), "head is an older frame (newer ones differ in topic/context or were removed)");
-    hx_cover!(want.is_none() && c0 == qc.to_u128(), "no head although the context has frames");
+/// C01/C06: iter_frames(ctx | all, last_id) returns exactly the in-scope frames with
+/// id > last_id, each once, in increasing id order. SCOPE 0 = all contexts, 1 = one context.
+pub fn o_iter<const L: usize, const N: usize, const SCOPE: u8>() {
+    let (sut, g) = setup::<L, N>(false, 0);
+    let scoped = SCOPE == 1;
+    let qc = sid(nd::any_u128());
+    let has_last = nd::any_bool();
+    let last = sid(nd::any_u128());
+    let ctx = if scoped { Some(qc) } else { None };
+    let (got, n, more) = {
+        let mut it = sut.store.iter_frames(ctx, if has_last { Some(&last) } else { None });
+        take_ids::<3>(&mut *it)
+    };
+    let mut want = [0u128; 3];
+    let mut m = 0;
+    let mut i = 0;
+    while i < N {
+        let f = &g[i].f;
+        if (!scoped || f.context_id == qc) && (!has_last || f.id > last) {
+            want[m] = f.id.to_u128();
+            m += 1;
+        }
+        i += 1;
+    }
+    hx_check!(!more && n == m, "C01 a read returns exactly as many frames as are live, in scope and after last-id");
+    hx_check!(got[0] == want[0] && got[1] == want[1] && got[2] == want[2], "C01 reads return the live history in strictly increasing id order, scoped to the context, strictly after last-id");
+    hx_cover!(m == N - 1 && has_last, "read with last-id returning all but one frame");
+    hx_cover!(
+        (scoped && m == 1 && g[0].f.context_id.to_u128().wrapping_add(1) == qc.to_u128()) || (!scoped && has_last && m == 1 && last == g[N - 2].f.id),
+        "scoped: a frame of the numerically adjacent context below is not returned; all: resuming exactly at a member id"
+    );
     core::mem::forget(sut);
+    core::mem::forget(g);
+}
+
+fn expired(f: &Frame, now: u64) -> bool {
+    match &f.ttl {
+        Some(TTL::Time(d)) => {
+            let ts = (f.id.to_u128() >> 80) as u64;
+            let dl = match ts.checked_add(d.as_millis() as u64) {
+                Some(x) => x,
+                None => u64::MAX,
+            };
+            now >= dl
+        }
+        _ => false,
+    }
+}
+
+/// C01/C08/C09: read_sync filters expired time:N frames *then* takes `limit`, and queues a
+/// Remove only for frames that really are expired.
+pub fn o_read_sync<const L: usize, const N: usize>() {
+    let (sut, g) = setup::<L, N>(true, 0);
+    let now = nd::any_u64();
+    env::stdm::time::set_clock(now);
+    let has_limit = nd::any_bool();
+    let limit = nd::any_usize();
+    let (got, n, more) = {
+        let mut it = sut.store.read_sync(None, if has_limit { Some(limit) } else { None }, None);
+        take_ids::<3>(&mut it)
+    };
+    let mut want = [0u128; 3];
+    let mut m = 0;
+    let mut n_expired = 0;
+    let mut i = 0;
+    while i < N {
+        let f = &g[i].f;
+        if expired(f, now) {
+            n_expired += 1;
+        } else if !has_limit || m < limit {
+            want[m] = f.id.to_u128();
+            m += 1;
+        }
+        i += 1;
+    }
+    hx_check!(!more && n == m, "C01 read_sync returns the first `limit` of the non-expired frames (filter, then take)");
+    hx_check!(got[0] == want[0] && got[1] == want[1] && got[2] == want[2], "C09 no time:N frame is returned once N ms have passed; the others come back in id order");
+    // GC queue: only Remove tasks, only for expired ghosts
+    let mut rx = sut.gc_rx.model_clone();
+    let mut removes = 0;
+    let mut k = 0;
+    while k < N {
+        if let Some(t) = rx.blocking_recv() {
+            match t {
+                GCTask::Remove(id) => {
+                    removes += 1;
+                    let mut ok = false;
+                    let mut j = 0;
+                    while j < N {
+                        if g[j].f.id == id && expired(&g[j].f, now) {
+                            ok = true;
+                        }
+                        j += 1;
+                    }
+                    hx_check!(ok, "C08 a Remove is queued only for a frame whose time:N ttl has elapsed");
+                }
+                other => {
+                    hx_check!(false, "C08 a read queues nothing but Remove tasks");
+                    core::mem::forget(other);
+                }
+            }
+        }
+        k += 1;
+    }
+    hx_check!(removes <= n_expired && rx.model_len() == 0, "C08 at most one Remove per expired frame");
+    hx_cover!(has_limit && limit == 1 && n_expired == 1 && m == 1 && want[0] == g[N - 1].f.id.to_u128(), "limit 1 with an expired frame ahead of the one delivered");
+    hx_cover!(removes == 1 && m == N - 1, "one expired frame reaped lazily, the rest delivered");
+    core::mem::forget(rx);
+    core::mem::forget(sut);
+    core::mem::forget(g);
+}
+
+fn c04_one_insert_batch(m: &env::trace::Mon) -> bool {
+    m.batches == 1 && m.commits == 1 && m.batch_inserts == 3 && m.last_commit_nops == 3 && m.ins_pids == 0b111 && m.batch_removes == 0 && m.direct_writes == 0
+}
+fn c04_synced(m: &env::trace::Mon) -> bool {
+    m.persists_sync_all >= 1 && m.persists_weak == 0 && m.unsynced_commits == 0 && m.at_persist > m.at_commit
+}
+
+/// C04/C20/C01: import (insert_frame) of a symbolic frame into a symbolic N-frame state: one
+/// atomic batch of exactly the three index writes, then fsync, no broadcast, no GC task; `get`
+/// returns exactly what was imported; the frame appears at its id's position in the stream.
+pub fn o_insert<const L: usize, const N: usize>() {
+    let (sut, g) = setup::<L, N>(false, 1);
+    let fid = nd::any_u128();
+    let mut i = 0;
+    while i < N {
+        nd::assume(fid != g[i].f.id.to_u128());
+        i += 1;
+    }
+    let f = mk_frame(topic::<L>(), nd::any_u128(), fid, sym_ttl_time());
+    let r = sut.store.insert_frame(&f);
+    hx_check!(r.is_ok(), "C20 import of a NUL-free frame is accepted");
+    let m = env::trace::mon();
+    hx_check!(c04_one_insert_batch(&m), "C04 an accepted frame is written as ONE atomic batch holding exactly its three index entries, nothing outside it");
+    hx_check!(c04_synced(&m), "C04 the batch is fsynced (SyncAll) before the write is acknowledged");
+    hx_check!(m.broadcasts == 0 && sut.gc_rx.model_len() == 0, "C20 import neither broadcasts nor triggers GC");
+    let back = sut.store.get(&f.id);
+    hx_check!(
+        matches!(&back, Some(x) if x.id == f.id && x.context_id == f.context_id && topic_eq(&x.topic, &f.topic) && x.ttl == f.ttl && x.hash == f.hash && x.meta == f.meta),
+        "C01 looking a frame up by id returns exactly what was accepted"
+    );
+    // position in the all-contexts stream
+    let (got, n, more) = {
+        let mut it = sut.store.iter_frames(None, None);
+        take_ids::<3>(&mut *it)
+    };
+    hx_check!(n == N + 1 && !more, "C20 an imported frame joins the stream, nothing else changes");
+    let mut sorted = true;
+    let mut found = false;
+    let mut i = 0;
+    while i < 3 {
+        if i < n && got[i] == fid {
+            found = true;
+        }
+        if i + 1 < n && got[i] >= got[i + 1] {
+            sorted = false;
+        }
+        i += 1;
+    }
+    hx_check!(found && sorted, "C20 an imported frame appears at its id's position in the stream, not at the end");
+    hx_cover!(fid < g[0].f.id.to_u128(), "imported frame sorts before every existing frame");
+    core::mem::forget(back);
+    core::mem::forget(sut);
+    core::mem::forget(g);
+    core::mem::forget(f);
+}
+
+/// C20/C05: importing the same frame again changes nothing (one stream entry, one context
+/// entry, same head, same lookup).
+pub fn o_reimport<const L: usize>() {
+    env::reset_all();
+    env::fjall::set_limit(2);
+    let sut = mk_store(2);
+    let f = mk_frame(topic::<L>(), nd::any_u128(), nd::any_u128(), None);
+    if sut.store.insert_frame(&f).is_err() {
+        nd::assume(false);
+    }
+    // the same frame again - or the same id/topic/context with an amended ttl (export, edit, import)
+    let f2 = mk_frame(f.topic.clone(), f.context_id.to_u128(), f.id.to_u128(), sym_ttl_time());
+    let r2 = sut.store.insert_frame(&f2);
+    hx_check!(r2.is_ok(), "C20 re-import is accepted");
+    let back = sut.store.get(&f.id);
+    hx_check!(matches!(&back, Some(x) if x.ttl == f2.ttl && topic_eq(&x.topic, &f.topic)), "C20 a re-imported frame is stored as given");
+    core::mem::forget(back);
+    let (_, n_all, more_all) = {
+        let mut it = sut.store.iter_frames(None, None);
+        take_ids::<2>(&mut *it)
+    };
+    let (ids, n_ctx, more_ctx) = {
+        let mut it = sut.store.iter_frames(Some(f.context_id), None);
+        take_ids::<2>(&mut *it)
+    };
+    hx_check!(n_all == 1 && !more_all && n_ctx == 1 && !more_ctx && ids[0] == f.id.to_u128(), "C20 importing the same frame again does not duplicate it in any stream");
+    let h = sut.store.head(&f.topic, f.context_id).map(|x| x.id);
+    hx_check!(h == Some(f.id), "C05 the re-imported frame is still the head of its topic");
+    hx_cover!(f2.ttl.is_some(), "re-import with an amended ttl");
+    core::mem::forget(sut);
+    core::mem::forget(f);
+    core::mem::forget(f2);
+}
+
+/// C04/C05: remove(id) for an arbitrary id over a symbolic N-frame state.
+pub fn o_remove<const L: usize, const N: usize>() {
+    let (sut, g) = setup::<L, N>(false, 0);
+    let rid = sid(nd::any_u128());
+    let mut hit = false;
+    let mut i = 0;
+    while i < N {
+        if rid == g[i].f.id {
+            hit = true;
+        }
+        i += 1;
+    }
+    let r = sut.store.remove(&rid);
+    hx_check!(r.is_ok(), "remove succeeds");
+    let m = env::trace::mon();
+    if hit {
+        hx_check!(m.batches == 1 && m.commits == 1 && m.batch_removes == 3 && m.last_commit_nops == 3 && m.rem_pids == 0b111 && m.batch_inserts == 0 && m.direct_writes == 0,
+            "C04 a remove is ONE atomic batch of exactly the frame's three tombstones, nothing outside it");
+        hx_check!(c04_synced(&m), "C04 the remove batch is fsynced (SyncAll) before it is acknowledged");
+    } else {
+        hx_check!(m.commits == 0 && m.direct_writes == 0, "C05 removing an unknown id leaves no trace");
+    }
+    // by id, all-contexts stream and the own-context stream agree on every frame
+    let (all, n_all, _) = {
+        let mut it = sut.store.iter_frames(None, None);
+        take_ids::<3>(&mut *it)
+    };
+    let mut i = 0;
+    while i < N {
+        let gone = g[i].f.id == rid;
+        let by_id = sut.store.get(&g[i].f.id);
+        let mut in_all = false;
+        let mut k = 0;
+        while k < 3 {
+            if k < n_all && all[k] == g[i].f.id.to_u128() {
+                in_all = true;
+            }
+            k += 1;
+        }
+        hx_check!(by_id.is_some() == !gone && in_all == !gone, "C05 after remove the frame is gone by id and from the all-contexts stream alike; every other frame stays on both");
+        core::mem::forget(by_id);
+        i += 1;
+    }
+    // its own context's stream and head
+    let (cids, n_ctx, _) = {
+        let mut it = sut.store.iter_frames(Some(g[0].f.context_id), None);
+        take_ids::<3>(&mut *it)
+    };
+    let mut in_ctx = false;
+    let mut k = 0;
+    while k < 3 {
+        if k < n_ctx && cids[k] == g[0].f.id.to_u128() {
+            in_ctx = true;
+        }
+        k += 1;
+    }
+    hx_check!(in_ctx == (g[0].f.id != rid), "C05 a frame is in its own context's stream iff it has not been removed");
+    let mut g2 = [
+        Ghost { f: mk_frame(g[0].f.topic.clone(), g[0].f.context_id.to_u128(), g[0].f.id.to_u128(), None), present: g[0].present && g[0].f.id != rid },
+        Ghost { f: mk_frame(g[1].f.topic.clone(), g[1].f.context_id.to_u128(), g[1].f.id.to_u128(), None), present: g[1].present && g[1].f.id != rid },
+        Ghost { f: mk_frame(g[2].f.topic.clone(), g[2].f.context_id.to_u128(), g[2].f.id.to_u128(), None), present: g[2].present && g[2].f.id != rid },
+    ];
+    let qt = g[N - 1].f.topic.clone();
+    let qc = g[N - 1].f.context_id;
+    let got = sut.store.head(&qt, qc).map(|f| f.id);
+    hx_check!(got == ref_head(&g2, &qt, qc), "C05 head skips the removed frame and falls back to the next newest of that topic");
+    hx_cover!(hit && rid == g[N - 1].f.id && got == Some(g[0].f.id), "newest frame removed, head falls back to an older one");
+    hx_cover!(!hit, "unknown id");
+    g2[0].present = false;
+    core::mem::forget(sut);
+    core::mem::forget(g);
+    core::mem::forget(g2);
+}
+
+fn ttl_kind() -> Option<TTL> {
+    let k = nd::any_u8();
+    if k == 0 {
+        None
+    } else if k == 1 {
+        Some(TTL::Forever)
+    } else if k == 2 {
+        Some(TTL::Ephemeral)
+    } else if k == 3 {
+        Some(TTL::Time(Duration::from_millis(nd::any_u64())))
+    } else {
+        nd::assume(k == 4);
+        let n = nd::any_u32();
+        nd::assume(n >= 1);
+        Some(TTL::Head(n))
+    }
+}
+
+/// C07/C09/C08/C04/C05: one append of a symbolic frame (every topic of L bytes - including
+/// ones with NUL -, every context id, every ttl kind) into a store whose registry holds the
+/// zero context and one symbolic registered context.
+pub fn o_append<const L: usize>() {
+    env::reset_all();
+    env::fjall::set_limit(1);
+    let sut = mk_store(2);
+    let reg = nd::any_u128();
+    sut.store.contexts.write().unwrap().insert(sid(reg));
+    env::trace::reset();
+    let mut brx = sut.store.broadcast_tx.subscribe();
+    let t = super::k_keys::sym_topic::<L>();
+    nd::assume(!topic_eq(&t, "xs.context"));
+    let has_nul = !nul_free(&t);
+    let ctx = nd::any_u128();
+    let ttl = ttl_kind();
+    let newid = nd::any_u128();
+    nd::assume(newid != 0);
+    env::scru::force_next(newid);
+    let fr = Frame { topic: t.clone(), context_id: sid(ctx), id: sid(0), hash: None, meta: None, ttl: ttl.clone() };
+    let r = sut.store.append(fr);
+    let m = env::trace::mon();
+    let allowed = ctx == 0 || ctx == reg;
+    hx_check!(r.is_ok() == (allowed && !has_nul), "C07 an append succeeds iff its context is the zero context or a registered one (and the topic has no NUL)");
+    match r {
+        Err(e) => {
+            hx_check!(m.batches == 0 && m.commits == 0 && m.direct_writes == 0 && m.broadcasts == 0, "C07 a rejected append leaves no frame, no index entry and no broadcast behind");
+            hx_check!(sut.gc_rx.model_len() == 0, "C07 a rejected append queues no GC work");
+            let st = sut.store.get(&sid(newid));
+            hx_check!(st.is_none(), "C05 a rejected append is not retrievable");
+            core::mem::forget(st);
+            core::mem::forget(e);
+        }
+        Ok(f) => {
+            hx_check!(f.id == sid(newid) && f.context_id == sid(ctx) && topic_eq(&f.topic, &t), "C01 append returns the frame it accepted, with the generated id");
+            let eph = matches!(ttl, Some(TTL::Ephemeral));
+            let stored = sut.store.get(&f.id);
+            hx_check!(stored.is_some() == !eph, "C09 an ephemeral frame is never stored; every other frame is");
+            if eph {
+                hx_check!(m.batches == 0 && m.commits == 0 && m.direct_writes == 0, "C09 an ephemeral append writes nothing");
+            } else {
+                hx_check!(c04_one_insert_batch(&m), "C04 an accepted frame is written as ONE atomic batch holding exactly its three index entries, nothing outside it");
+                hx_check!(m.persists_sync_all >= 1 && m.persists_weak == 0 && m.unsynced_commits == 0, "C04 the batch is fsynced (SyncAll) before the write is acknowledged");
+                let h = sut.store.head(&t, sid(ctx)).map(|x| x.id);
+                hx_check!(h == Some(f.id), "C05 the appended frame is the head of its topic in its context");
+            }
+            hx_check!(m.broadcasts == 1 && m.last_broadcast == newid && !m.broadcast_before_persist, "C03 every accepted append is broadcast exactly once, after it is durable");
+            let live = brx.model_try_recv();
+            hx_check!(matches!(&live, Some(Ok(x)) if x.id == f.id), "C09 an ephemeral (and any other) frame reaches the followers subscribed at that moment");
+            core::mem::forget(live);
+            // GC: exactly one task iff a head:N frame was stored (what the task does is o_gc_head's business)
+            let want_tasks = if matches!(ttl, Some(TTL::Head(_))) { 1 } else { 0 };
+            hx_check!(sut.gc_rx.model_len() == want_tasks, "C08 a retention check is scheduled iff a head:N frame was stored - one per append");
+            core::mem::forget(stored);
+            core::mem::forget(f);
+        }
+    }
+    hx_cover!(allowed && !has_nul && matches!(ttl, Some(TTL::Head(_))) && ctx != 0, "accepted head:N append into the registered context");
+    hx_cover!(!allowed && !has_nul, "rejected: unregistered context");
+    hx_cover!((L > 0 && has_nul && allowed) || (L == 0 && allowed), "rejected: NUL in topic (for the empty topic: accepted)");
+    hx_cover!(allowed && !has_nul && matches!(ttl, Some(TTL::Ephemeral)), "accepted ephemeral append");
+    core::mem::forget(brx);
+    core::mem::forget(sut);
+    core::mem::forget(t);
+}
+
+/// C07: `xs.context` frames: accepted only in the zero context, always kept forever, and
+/// their id becomes a usable context at once.
+pub fn o_append_context() {
+    env::reset_all();
+    env::fjall::set_limit(2);
+    let sut = mk_store(2);
+    let ctx = nd::any_u128();
+    let ttl = ttl_kind();
+    let newid = nd::any_u128();
+    nd::assume(newid != 0 && newid != u128::MAX);
+    env::scru::force_next(newid);
+    let fr = Frame { topic: "xs.context".to_string(), context_id: sid(ctx), id: sid(0), hash: None, meta: None, ttl: ttl.clone() };
+    let r = sut.store.append(fr);
+    hx_check!(r.is_ok() == (ctx == 0), "C07 xs.context frames are accepted only in the zero context");
+    let registered = sut.store.contexts.read().unwrap().contains(&sid(newid));
+    match r {
+        Ok(f) => {
+            hx_check!(matches!(f.ttl, Some(TTL::Forever)), "C07 xs.context frames are kept forever whatever TTL was requested");
+            let st = sut.store.get(&f.id);
+            hx_check!(matches!(&st, Some(x) if matches!(x.ttl, Some(TTL::Forever))), "C07 the registration frame is stored (even if ephemeral was requested) with ttl forever");
+            hx_check!(registered, "C07 the new context is usable as soon as its registration is accepted");
+            env::scru::force_next(newid + 1);
+            let r2 = sut.store.append(Frame { topic: "a".to_string(), context_id: f.id, id: sid(0), hash: None, meta: None, ttl: None });
+            hx_check!(r2.is_ok(), "C07 appends into a freshly registered context succeed");
+            core::mem::forget(r2);
+            core::mem::forget(st);
+            core::mem::forget(f);
+        }
+        Err(e) => {
+            let m = env::trace::mon();
+            hx_check!(m.commits == 0 && m.broadcasts == 0 && m.direct_writes == 0, "C07 a rejected registration leaves no trace");
+            hx_check!(!registered, "C07 a rejected registration does not make its id a usable context");
+            core::mem::forget(e);
+        }
+    }
+    hx_cover!(ctx == 0 && matches!(ttl, Some(TTL::Ephemeral)), "registration requested as ephemeral");
+    hx_cover!(ctx != 0, "registration attempted outside the zero context");
+    core::mem::forget(sut);
+}
+
+/// C08/C09: a `head:K` append (every registered context, every topic of Q bytes, every K >= 1)
+/// followed by the REAL gc worker body, over a symbolic N-frame state (stored topics L bytes):
+/// exactly the frames of that (context, topic) beyond the K newest disappear - never a frame of
+/// another topic (even a prefix-related one) or context - and the K newest are what stays.
+pub fn o_gc_head<const L: usize, const Q: usize, const N: usize>() {
+    let (sut, g) = setup::<L, N>(false, 1);
+    let qc = sid(nd::any_u128());
+    sut.store.contexts.write().unwrap().insert(qc);
+    let qt = topic::<Q>();
+    nd::assume(!topic_eq(&qt, "xs.context"));
+    let keep = nd::any_u32();
+    nd::assume(keep >= 1);
+    let newid = nd::any_u128();
+    nd::assume(newid > g[N - 1].f.id.to_u128());
+    env::scru::force_next(newid);
+    let r = sut.store.append(Frame { topic: qt.clone(), context_id: qc, id: sid(0), hash: None, meta: None, ttl: Some(TTL::Head(keep)) });
+    if r.is_err() {
+        nd::assume(false);
+    }
+    gc_drain(&sut);
+    // the new frame is the newest member; rank the older members from newest to oldest
+    let mut newer = 1u32;
+    let mut i = N;
+    let mut evicted = 0;
+    while i > 0 {
+        i -= 1;
+        let f = &g[i].f;
+        let member = f.context_id == qc && topic_eq(&f.topic, &qt);
+        let should_go = member && newer >= keep;
+        if member {
+            newer += 1;
+        }
+        let still = sut.store.get(&f.id);
+        hx_check!(still.is_some() == !should_go, "C08 head:K eviction removes exactly the frames of that topic and context outside the K newest - never a frame of another topic (even a prefix-related one) or context");
+        if should_go {
+            evicted += 1;
+        }
+        core::mem::forget(still);
+    }
+    let st = sut.store.get(&sid(newid));
+    hx_check!(st.is_some(), "C09 the newest frame of a head:K topic survives the collection");
+    core::mem::forget(st);
+    hx_check!(sut.gc_rx.model_len() == 0, "C09 the collector drained its queue");
+    hx_cover!(
+        (L == Q && evicted == N && keep == 1) || (L != Q && g[0].f.context_id == qc && g[N - 1].f.context_id == qc && keep == 1),
+        "equal lengths: head:1 evicts every older member; different lengths: prefix-related topics in the same context survive head:1"
+    );
+    hx_cover!(
+        (L == Q && evicted == 1 && newer == 3 && N >= 2) || (L != Q && evicted == 0) || N < 2,
+        "equal lengths: head:2 over three members evicts exactly the oldest; different lengths: nothing evicted"
+    );
+    core::mem::forget(r);
+    core::mem::forget(sut);
+    core::mem::forget(g);
+    core::mem::forget(qt);
+}
+
+/// C08: a Remove(id) task removes that frame and nothing else.
+pub fn o_gc_remove<const L: usize, const N: usize>() {
+    let (sut, g) = setup::<L, N>(false, 0);
+    let rid = sid(nd::any_u128());
+    let _ = sut.store.gc_tx.send(GCTask::Remove(rid));
+    gc_drain(&sut);
+    let mut i = 0;
+    while i < N {
+        let still = sut.store.get(&g[i].f.id);
+        hx_check!(still.is_some() == (g[i].f.id != rid), "C08 a queued Remove deletes exactly the frame it names");
+        core::mem::forget(still);
+        i += 1;
+    }
+    hx_cover!(rid == g[0].f.id, "oldest frame reaped");
+    core::mem::forget(sut);
+    core::mem::forget(g);
+}
+
+/// "process restart": every in-memory structure (channels, registry set, task table) is gone,
+/// the model keyspace survives; the REAL `Store::new` then rebuilds from it.
+pub fn reopen() -> Store {
+    env::restart_memory();
+    let was = env::sched::inline();
+    env::sched::set_inline(true);
+    let s = Store::new(PathBuf::new());
+    env::sched::set_inline(was);
+    s
+}
+
+/// C07/C20: the context registry is a function of the stored frames: after importing an
+/// arbitrary frame (possibly an `xs.context` registration, possibly in a non-zero context)
+/// the registry equals what a reopen (the real `Store::new` reload) computes from the frames.
+pub fn o_registry_after_import<const L: usize>() {
+    env::reset_all();
+    env::fjall::set_limit(1);
+    let sut = mk_store(2);
+    let t = topic::<L>();
+    let ctx = nd::any_u128();
+    let id = nd::any_u128();
+    nd::assume(id != 0);
+    let f = mk_frame(t, ctx, id, None);
+    let r = sut.store.insert_frame(&f);
+    if r.is_err() {
+        nd::assume(false);
+    }
+    let is_reg = topic_eq(&f.topic, "xs.context") && ctx == 0;
+    if is_reg {
+        nd::tag("import-of-xs.context-registration");
+    }
+    let before = sut.store.contexts.read().unwrap().contains(&sid(id));
+    core::mem::forget(sut);
+    let s2 = reopen();
+    let after = s2.contexts.read().unwrap().contains(&sid(id));
+    hx_check!(after == is_reg, "C07 reopening registers exactly the ids of xs.context frames stored in the zero context");
+    hx_check!(before == after, "C07 the set of usable contexts is the same before and after a reopen, however the frames got there");
+    let zero = s2.contexts.read().unwrap().contains(&ZERO_CONTEXT);
+    hx_check!(zero, "C07 the zero context is always usable");
+    hx_cover!((L == 10 && is_reg) || (L != 10 && !is_reg && ctx == 0), "L=10: an xs.context registration was imported; otherwise: a zero-context frame that is not a registration");
+    core::mem::forget(s2);
+    core::mem::forget(f);
+}
+
+/// C07: removing a registration frame unregisters its context, before and after a reopen.
+pub fn o_remove_unregisters() {
+    env::reset_all();
+    env::fjall::set_limit(2);
+    let sut = mk_store(2);
+    let id = nd::any_u128();
+    nd::assume(id != 0 && id != u128::MAX);
+    env::scru::force_next(id);
+    let r = sut.store.append(Frame { topic: "xs.context".to_string(), context_id: ZERO_CONTEXT, id: sid(0), hash: None, meta: None, ttl: None });
+    if r.is_err() {
+        nd::assume(false);
+    }
+    let r = sut.store.remove(&sid(id));
+    hx_check!(r.is_ok(), "remove succeeds");
+    hx_check!(!sut.store.contexts.read().unwrap().contains(&sid(id)), "C07 removing its registration frame makes a context unusable");
+    env::scru::force_next(id + 1);
+    let r2 = sut.store.append(Frame { topic: "a".to_string(), context_id: sid(id), id: sid(0), hash: None, meta: None, ttl: None });
+    hx_check!(r2.is_err(), "C07 an append into an unregistered-again context is rejected");
+    core::mem::forget(sut);
+    let s2 = reopen();
+    hx_check!(!s2.contexts.read().unwrap().contains(&sid(id)), "C07 and it stays unusable after a reopen");
+    hx_cover!(true, "reached");
+    core::mem::forget(r2);
+    core::mem::forget(s2);
 }
 
 crate::scenarios! {
     unwind 50;
-    o_head_q_0 => o_head_q::<0>();
-    o_head_q_1 => o_head_q::<1>();
-    o_head_q_2 => o_head_q::<2>();
-    o_head_q_3 => o_head_q::<3>();
-}
-
-#[cfg(kani)]
-mod probe {
-    use super::*;
-    #[kani::proof]
-    #[kani::unwind(50)]
-    fn c1() {
-        env::fjall::set_limit(7);
-        let sut = mk_store(2);
-        let g = base_s1(&sut);
-        assert!(env::fjall::live_count(0) == 7);
-        core::mem::forget(sut);
-        core::mem::forget(g);
-    }
+    o_head_1_1_2 => o_head::<1, 1, 2>();
+    o_head_1_2_2 => o_head::<1, 2, 2>();
+    o_head_2_1_2 => o_head::<2, 1, 2>();
+    o_head_0_1_2 => o_head::<0, 1, 2>();
+    o_head_1_0_2 => o_head::<1, 0, 2>();
+    o_head_1_1_3 => o_head::<1, 1, 3>();
+    o_head_1_2_3 => o_head::<1, 2, 3>();
+    o_head_2_1_3 => o_head::<2, 1, 3>();
+    o_head_2_2_3 => o_head::<2, 2, 3>();
+    o_head_2_3_3 => o_head::<2, 3, 3>();
+    o_head_3_2_3 => o_head::<3, 2, 3>();
+    o_iter_all_1_2 => o_iter::<1, 2, 0>();
+    o_iter_ctx_1_2 => o_iter::<1, 2, 1>();
+    o_iter_ctx_0_2 => o_iter::<0, 2, 1>();
+    o_iter_all_1_3 => o_iter::<1, 3, 0>();
+    o_iter_ctx_1_3 => o_iter::<1, 3, 1>();
+    o_read_sync_1_2 => o_read_sync::<1, 2>();
+    o_read_sync_0_2 => o_read_sync::<0, 2>();
+    o_read_sync_1_3 => o_read_sync::<1, 3>();
+    o_insert_1_1 => o_insert::<1, 1>();
+    o_insert_1_2 => o_insert::<1, 2>();
+    o_insert_2_2 => o_insert::<2, 2>();
+    o_reimport_1 => o_reimport::<1>();
+    o_reimport_2 => o_reimport::<2>();
+    o_remove_1_2 => o_remove::<1, 2>();
+    o_remove_2_2 => o_remove::<2, 2>();
+    o_remove_1_3 => o_remove::<1, 3>();
+    o_append_1 => o_append::<1>();
+    o_append_0 => o_append::<0>();
+    o_append_2 => o_append::<2>();
+    o_append_context_all => o_append_context();
+    o_gc_head_1_1_2 => o_gc_head::<1, 1, 2>();
+    o_gc_head_1_2_2 => o_gc_head::<1, 2, 2>();
+    o_gc_head_2_1_2 => o_gc_head::<2, 1, 2>();
+    o_gc_head_1_1_3 => o_gc_head::<1, 1, 3>();
+    o_gc_head_2_2_3 => o_gc_head::<2, 2, 3>();
+    o_gc_remove_1_2 => o_gc_remove::<1, 2>();
+    o_registry_after_import_10 => o_registry_after_import::<10>();
+    o_registry_after_import_11 => o_registry_after_import::<11>();
+    o_registry_after_import_1 => o_registry_after_import::<1>();
+    o_remove_unregisters_all => o_remove_unregisters();
 }
